@@ -117,6 +117,11 @@ def run_case(K: float, framing: str, offsets: list[tuple[float, str]], horizon_k
         # a live device answers pings itself, K/16 after receiving them (so a pong never coincides with the tick that caused it)
         lat = K / 16 if live_until is not None else 0.0
         cfg = DeviceConfig(answer_ping=live_until is not None, reply_delay=lat)
+        from vf.sim import rotation as _rot  # noqa: PLC0415
+
+        if _rot.decide("device_name", ("dev", "dev", "dev", "special-characters")) == "special-characters":
+            # the name the device announces ends up in the client's log name and error texts: characters special to %-formatting / str.format
+            cfg.name = "boiler 50% duty %s {0}"
         if framing == "noise":
             cfg.noise_psk = PSK
         dev = sim.device(cfg)
